@@ -33,9 +33,10 @@
    a wait); "eventually resumed under a fair scheduler" is the standard step from there and is not proved.  The
    return value of wake_all (= number of nodes it took) is checked by the acct monitor on the real code, not proved.
    Task / FutureAwaitable / final_suspend hand-off are covered by monitors on the real code only (value, executor,
-   once).  Observed by reading, not reproduced (needs a pre-emption inside a plain-memory window plus ASan):
-   Futex::Awaitable::await_suspend reads this->_on_suspend after add_awaiter published the node; a waker on another
-   thread may already have resumed the coroutine and destroyed the awaitable.
+   once).  The use of the awaitable after add_awaiter published the node (await_suspend fetched _on_suspend from an
+   awaitable the continuation may already have destroyed; repaired by 2496902) is outside the model (object lifetime):
+   it is checked on the real code by the variant driver (scheduling point after every unlock of futex.cpp, freed memory
+   poisoned, monitor cbafter) and by the regenerated target callback_taken_before_publish.
    Regression witnesses (code before the repairs 3220185 / 0534791 / 78434ce, cfg_asis): c13_asis_*. *)
 From Coq Require Import ZArith List Bool Arith.
 Require Import Verif.Conc.Machine Verif.Gen.Gen_coroutine Verif.CO.COModel Verif.CO.COProofs.
